@@ -44,6 +44,25 @@ struct AliasGrid : GridBase {
             if (result > I::limit()) continue;
             cell(form, spare, size, pos, src, count, result, want_cap);
           }
+    // large sizes: an aliased element at an index that does not fit a signed 8-bit value (index arithmetic in the size_type)
+    if (!I::kFixed && I::limit() >= 255) {
+      uintmax_t bigs[] = {129, 200};
+      for (uintmax_t size : bigs)
+        for (uintmax_t pos : {static_cast<uintmax_t>(0), size / 2, size})
+          for (uintmax_t src : {static_cast<uintmax_t>(0), static_cast<uintmax_t>(127), static_cast<uintmax_t>(128), size - 1})
+            for (uintmax_t count = 1; count <= 2 && !g_cut; ++count) {
+              bool uses_pos = form == AF_INSERT || form == AF_INSERT_N || form == AF_EMPLACE || form == AF_EMPLACE_PTR;
+              bool uses_count = form == AF_INSERT_N || form == AF_RESIZE || form == AF_ASSIGN || form == AF_APPEND;
+              if (!uses_pos && pos != 0) continue;
+              if (!uses_count && count != 1) continue;
+              if (spare == SP_NATURAL || spare == SP_MORE) continue;
+              uintmax_t added = uses_count ? count : 1;
+              uintmax_t result = form == AF_ASSIGN ? count + size - 2 : size + added;
+              if (result > I::limit()) continue;
+              uintmax_t want_cap = spare == SP_GROW ? size : std::max(result, size);
+              cell(form, spare, size, pos, src, count, result, want_cap);
+            }
+    }
     if (!g_cut) end_history_ok();
   }
 
